@@ -271,11 +271,12 @@ func Live(impl int64, n int) Sx {
 	sched.VerifNow = nil // wall clock
 	var t sched.Timer
 	if impl == ImplLiveWheel {
-		t = sched.NewHHWheelTimer(time.Millisecond, time.Millisecond)
+		t = sched.NewDefaultHHWheelTimer()
 	} else {
-		t = sched.NewTimerQueue(time.Millisecond, time.Millisecond)
+		t = sched.NewDefaultTimerQueue()
 	}
 	t.Start()
+	t.Start() // a second Start of a running scheduler is a no-op
 	ch := t.Chan()
 	type rec struct {
 		id        int
@@ -298,7 +299,11 @@ func Live(impl int64, n int) Sx {
 		defer close(feeder)
 		for i := 0; i < n; i++ {
 			j := &Job{Ord: int64(i + 1)}
-			recs[i] = &rec{job: j, id: t.RunAfter(0, j)}
+			delay := 0
+			if i < 5 {
+				delay = 1000000 // a few that are still far from due when they are cancelled
+			}
+			recs[i] = &rec{job: j, id: t.RunAfter(delay, j)}
 			atomic.StoreInt64(&j.liveID, int64(recs[i].id))
 			atomic.StoreInt64(&issuedN, int64(i+1))
 			atomic.AddInt64(&progress, 1)
@@ -416,7 +421,45 @@ func Live(impl int64, n int) Sx {
 		}
 	}
 	t.Shutdown()
+	t.Shutdown() // shutting down twice is a no-op
 	return Ints(int64(n), nDelivered, nCancelled, both, neither, int64(size), stillSched, 0)
+}
+
+// parkedShutdown: the REAL worker with only repeating timers due and nobody reading Chan():
+// the worker ends up waiting for the consumer in its hand-over loop; Shutdown() must still
+// return (the loop watches the done channel).  Same observation shape as ParkedOnOutput:
+// (parked 1 shutdownReturned 0 0 0 0).
+func parkedShutdown(impl int64) Sx {
+	sched.VerifNow = nil
+	var t sched.Timer
+	if impl == ImplParkWheel {
+		t = sched.NewHHWheelTimer(time.Millisecond, time.Millisecond)
+	} else {
+		t = sched.NewTimerQueue(time.Millisecond, time.Millisecond)
+	}
+	t.Start()
+	ch := t.Chan()
+	for i := 0; i < 40; i++ {
+		t.RunEvery(1, &Job{Ord: 1})
+	}
+	parked := int64(0)
+	for end := time.Now().Add(10 * time.Second); time.Now().Before(end); {
+		if len(ch) == cap(ch) && insideTick() {
+			time.Sleep(20 * time.Millisecond)
+			if len(ch) == cap(ch) && insideTick() {
+				parked = 1
+				break
+			}
+		}
+		time.Sleep(time.Millisecond)
+		atomic.AddInt64(&progress, 1)
+	}
+	_, ok := guarded(func() int64 { t.Shutdown(); return 0 })
+	ret := int64(0)
+	if ok {
+		ret = 1
+	}
+	return Ints(parked, 1, ret, 0, 0, 0, 0)
 }
 
 // insideTick reports whether some goroutine is inside the worker's tick code (tick /
@@ -464,7 +507,7 @@ func ParkedOnOutput(impl int64, variant int64) Sx {
 	pJob := &Job{Ord: -7}
 	var pid int
 	startP := func() {
-		if variant == 0 {
+		if variant != 1 {
 			pid = t.RunEvery(delay, pJob)
 		} else {
 			pid = t.RunAfter(delay, pJob)
@@ -477,11 +520,20 @@ func ParkedOnOutput(impl int64, variant int64) Sx {
 			d.HandleAdd()
 		}
 	}
-	if impl == ImplParkWheel {
+	switch {
+	case variant == 3:
+		return parkedShutdown(impl)
+	case impl == ImplParkWheel:
 		startOthers(capC) // they fill the channel
 		startP()          // the first one that does not fit
 		startOthers(extra)
-	} else {
+	case variant == 2:
+		// heap, equal deadlines are handed over by descending id: the last ones started fill
+		// the channel, P is the first that does not fit (the worker waits in its retry loop)
+		startOthers(extra)
+		startP()
+		startOthers(capC)
+	default:
 		startP() // smallest id: last among equal deadlines in the heap's order
 		startOthers(capC + extra)
 	}
@@ -548,7 +600,7 @@ func ParkedOnOutput(impl int64, variant int64) Sx {
 	if n, ok := d.TrySize(); ok {
 		size = int64(n)
 	}
-	if variant == 0 && cancelResult == 0 && size > 0 {
+	if variant != 1 && cancelResult == 0 && size > 0 {
 		size-- // the repeating timer legitimately stays scheduled when its cancel was refused
 	}
 	return Ints(parked, cancelResult, cancelReturned, pAfter, others, expected, size)
